@@ -5,7 +5,7 @@
 (* (set of failed clauses) is printed as one JSON line when non-empty.     *)
 (* Acceptance = every line of the trace file was consumed.                 *)
 (***************************************************************************)
-EXTENDS JudgeTx, JudgeSat, Json, IOUtils
+EXTENDS JudgeTx, JudgeSat, JudgeGraph, Json, IOUtils
 
 Tr == ndJsonDeserialize(IOEnv.TRACE_FILE)
 
@@ -17,6 +17,7 @@ JudgeEvent(e) ==
     [] e.kind = "model_count"  -> Judge_model_count(e)
     [] e.kind = "signal_probability" -> Judge_signal_probability(e)
     [] e.kind = "dimacs"       -> Judge_dimacs(e)
+    [] e.kind = "graph"        -> Judge_graph(e)
     [] OTHER -> {"MACHINERY:unknown_kind"}
 
 VARIABLE l
